@@ -49,6 +49,9 @@ def c10(tier, seed):
             out.append({'line': setup + './pargs %s' % word, 'files': {'pargs': PARGS}, 'expect_stdout': _argv([val]), 'area': 'expand_env:unquoted'})
     out.append({'line': 'sh -c "exit 7"; ./pargs "$?" $?', 'files': {'pargs': PARGS}, 'expect_stdout': _argv(['7', '7']), 'area': 'expand_env:status'})
     out.append({'line': './pargs "a$?b"', 'files': {'pargs': PARGS}, 'expect_stdout': _argv(['a0b']), 'area': 'expand_env:status'})
+    # inside double quotes a single quote is an ordinary character: the reference between two of them is expanded
+    out.append({'line': "A=val; ./pargs \"q='$A'\" \"a='${A}' b\" \"='$A'\" 'q=$A'", 'files': {'pargs': PARGS},
+                'expect_stdout': _argv(["q='val'", "a='val' b", "='val'", 'q=$A']), 'area': 'expand_env:single-quotes-inside-double-quotes'})
     # a reference next to, and between, command substitutions
     out.append({'line': 'A=val; ./pargs $(echo x)$A$(echo y) "$(echo x)${A}$(echo y)" $A$(echo z) $(echo w)$A; V=$(echo p)$A$(echo q); ./pargs "$V"', 'files': {'pargs': PARGS},
                 'expect_stdout': _argv(['xvaly', 'xvaly', 'valz', 'wval']) + _argv(['pvalq']), 'area': 'expand_env:reference-between-two-substitutions'})
